@@ -38,6 +38,12 @@ PROPS["C05"] = dict(engine="A", runs=(4000, 200000), modes=[("nofault", 0.2), ("
     level_note="Trusted: simrt scheduler and simsync (lock semantics incl. RWMutex without writer preference), Go race detector; a CPU-only infinite loop without any lock operation would trip the real-time watchdog (exit 2), not a verdict.",
     technique="deterministic simulation: seeded lock-granular schedule search with fault injection (flaps, reloads, clock), deadlock/livelock detection, race detector under controlled schedules")
 
+PROPS["C09"] = dict(engine="A", runs=(6000, 200000), modes=[("nofault", 0.25), ("swarm", 0.75)], race=False,
+    level="exploration", design="§6 Engine A / C09",
+    level_text="Seeded histories of 1-10 reloads (backend/sub-cluster/cluster adds and removes, weight and gslb-weight changes, renames, duplicate addresses, clusters disappearing and reappearing) interleaved with availability flips, connection counts, failure marks and selections, all through the real loaders and BalTableReload. After every reload: survivors keep Avail/ConnNum/FailNum and are not released, every removed object has its close channel closed (a second release panics and is caught), nothing removed is ever selected again, every new eligible backend is selected within 2W picks.",
+    level_note="Trusted: simrt, the harness's identity model (cluster, sub-cluster, addr:port, name); object identity of removed backends is taken from a snapshot of the balancer's own list before the reload.",
+    technique="deterministic simulation: seeded reload histories on the real balancer with survivor/release/zombie/new oracles; tape-shrunk replay")
+
 NOT_APPLICABLE = {
     "C10": "pure function of (host table, VIP table, Host header): no goroutine, clock, stream, file or peer takes part; the only thing to vary is input, which is generation, not simulation (DESIGN §7)",
     "C11": "basic-rule tree lookup is a pure function of (rule set, host, path); nothing to schedule or fault (DESIGN §7)",
